@@ -72,11 +72,30 @@ def run(ctx):
         if n.kind == "stmt" and isinstance(n.ast, ast.Return):
             facts = facts_at(cfg, n)
             v = src(n.ast.value)
-            if v == f"{p}[-1]" and any(t and "not isinstance(" in f and "dict" in f and "any(" in f for f, t in facts):
+            if f"{p}[-1]" in v and any(t and "not isinstance(" in f and "dict" in f and "any(" in f for f, t in facts):
                 okl = True
             if "merge_dicts(values)" in v and isinstance(n.ast.value, (ast.Call, ast.DictComp)):
                 okr = True
     r2.check(okl, f"{um.rel}:merge_dicts:non-dict", "for non-dict operands the last one does not take precedence", um.rel, md.lineno)
+    # a non-dict operand replaces what came before it; dict operands *after* the last non-dict still merge with each other (that is what applying
+    # the overrides one after the other gives).  `return dicts[-1]` for every mixed list drops all but the last of them.
+    mixed_tests = [n for n in cfg.nodes if n.kind == "test" and isinstance(n.ast, ast.expr) and "any(" in src(n.ast) and "isinstance(" in src(n.ast) and "dict" in src(n.ast)]
+    if not mixed_tests:
+        raise AnalysisError("merge_dicts: the `any(not isinstance(.., dict))` test was not found", "merge_dicts")
+    suffix_merged = False
+    for mt in mixed_tests:
+        for e in cfg.edge_nodes(mt, "T"):
+            for n in cfg.nodes:
+                if n.kind == "stmt" and n.ast is not None and cfg.dominates(e, n) and any(isinstance(c, ast.Call) and call_name(c) == "merge_dicts" for c in ast.walk(n.ast)):
+                    suffix_merged = True
+    r2.check(
+        suffix_merged,
+        f"{um.rel}:merge_dicts:mappings-after-last-scalar",
+        "when any operand is not a dict merge_dicts returns the last operand alone: merge_dicts([{'a': 5}, {'a': {'x': 1}}, {'a': {'y': 2}}]) gives {'a': {'y': 2}} where merging one "
+        "after the other gives {'a': {'x': 1, 'y': 2}} -- update_context({'a': {'x': 1}}, a={'y': 2}) under an inherited scalar `a` loses the first override",
+        um.rel,
+        md.lineno,
+    )
     t = src(md)
     okr = okr and f"for dct in {p}:" in t and "key2values[key].append(value)" in t
     from ..flow import merge_purity_obligations
